@@ -15,6 +15,9 @@ def main(tier, seed):
     glue.run(chk, 'C17')
     from checks import c17lang
     c17lang.run(chk, tier, seed)
+    from checks import fixed_clauses
+    fixed_clauses.case_of_literal_text(chk)
+    fixed_clauses.windows_bytes_twins(chk)
     return chk.finish(
         explanation=('flag-algebra contracts and the statement-level lemmas are proved for all 2^64 flag words and both platforms; the language-level '
                      'closure clauses are exact per pattern and bounded in the pattern'),
